@@ -1,5 +1,5 @@
 #!/bin/sh
-# usage: tools/renametest.sh [-locals] [-funcs]   — rename-robustness experiment on a scratch copy
+# usage: tools/renametest.sh [-locals] [-funcs] [-fields] [-types]   — rename-robustness experiment on a scratch copy
 export GOFLAGS=-mod=mod GOPROXY=off GOSUMDB=off GOTOOLCHAIN=local
 d=$(mktemp -d /tmp/sa-ren-XXXX)
 git -C /repo archive HEAD | tar -x -C $d
